@@ -3,14 +3,14 @@ PLAN = {
     "C04": dict(
         engine="modelx", technique="explicit-state enumeration of preset/term/call-history space on the real Lattice, dense Jordan-Wigner reference as oracle",
         level_text="every preset overload, every raw term pattern/index tuple on <=3 modes and every depth-<=2 composition is executed on the real library and compared entry-by-entry with the documented operator; exhaustive within those alphabets",
-        runs=[("san", "hx", "C04", 8, [])], thorough_extra=[("cplx", "hx", "C04", 8, [])],
+        runs=[("san", "hx", "C04", 8, []), ("cplx", "hx", "C04", 8, [])],
         rule="every preset overload x site (pair) x argument tuple over {0,-1,0.5,2} on shapes S1..S7; every raw term of 1,2,3,4,6 operators "
              "(all c/c+ patterns x all index tuples, M<=3); BFS depth<=2 over the generator alphabet (term lists add up). "
              "non-trivial = H non-diagonal or with a degenerate level"),
     "C03": dict(
         engine="modelx", technique="explicit-state BFS over model histories on the real Lattice; every state x partition evaluated against one dense 2^N diagonalisation",
         level_text="every model reachable by <=2-3 generator calls on shapes S1-S7 (M<=4; thorough M<=6) under default / ignored / custom partitions: block spectra, eigenvectors, ground energy and label lookups compared with a dense full-Fock diagonalisation",
-        runs=[("san", "hx", "C03", 8, [])], thorough_extra=[("cplx", "hx", "C03", 8, [])],
+        runs=[("san", "hx", "C03", 8, []), ("cplx", "hx", "C03", 8, [])],
         rule="BFS over generator histories (dedup by Fock matrix of the stored terms) x partitions; non-trivial = H non-diagonal or degenerate"),
     "C09": dict(
         engine="modelx", technique="explicit-state BFS over model histories x beta grid on the real pipeline; dense Gibbs-state traces as oracle",
@@ -20,12 +20,12 @@ PLAN = {
     "C10": dict(
         engine="modelx", technique="explicit-state BFS over model histories x partitions; stored sparse operators rotated back with the stored eigenvectors and compared with Jordan-Wigner matrices",
         level_text="every model state x partitions {default, ignored, custom} x every index: c, c+, c+_i c_j computed one by one and through the container, rotated back = JW matrix; adjoint relation; CAR over all blocks; block mapping covers every non-zero element",
-        runs=[("san", "hx", "C10", 16, [])], thorough_extra=[("cplx", "hx", "C10", 16, [])],
+        runs=[("san", "hx", "C10", 16, []), ("cplx", "hx", "C10", 16, [])],
         rule="BFS over generator histories x 3 partitions x all indices"),
     "C01": dict(
         engine="modelx", technique="explicit-state BFS over model histories x beta x (i,j) x Matsubara set on the real pipeline (two object paths); dense Lehmann reference with the documented dropped-term allowance",
         level_text="every model state x beta in {0.5,5,40}(+1e-3,1e3) x all (i,j) x n in {-3..2,+-50} x partitions {default, ignored}: stand-alone GreensFunction and GFContainer agree and equal the full-Fock ED value within the documented dropped/merged-term allowance",
-        runs=[("san", "hx", "C01", 16, [])], thorough_extra=[("cplx", "hx", "C01", 16, [])],
+        runs=[("san", "hx", "C01", 16, []), ("cplx", "hx", "C01", 16, [])],
         rule="BFS over generator histories x betas x all index pairs x Matsubara numbers; non-trivial = H non-diagonal or degenerate"),
     "C11": dict(
         engine="modelx", technique="explicit-state BFS over model histories x beta x (i,j) x z grid x tau grid; identities + dense G(tau) reference",
@@ -40,7 +40,7 @@ PLAN = {
     "C05": dict(
         engine="histx", technique="explicit-state BFS over the expression graph of the real Operator class (state key = its Fock matrix); Jordan-Wigner matrices as reference model",
         level_text="expression graph over {*,+,-,scalar*,+scalar,[,],{,}} from c_i,c+_i on 2 and 3 modes to depth 2 (thorough 3), all monomials up to length 6/4 in every factor order, all (==, commutes) pairs against matrix equality, associativity on all depth<=1 triples, N and Sz shortcuts on every Fock state",
-        runs=[("san", "hx", "C05", 8, [])], thorough_extra=[("cplx", "hx", "C05", 8, [])],
+        runs=[("san", "hx", "C05", 8, []), ("cplx", "hx", "C05", 8, [])],
         rule="BFS over operator expressions, dedup by Fock matrix; plus flat enumeration of all operator sequences up to the length bound; non-trivial = monomial of length >= 3"),
     "C18": dict(
         engine="modelx", technique="exhaustive enumeration of small lattices (sites x orbital/spin counts x labels x ordering modes) on the real IndexClassification; BFS over models with every relabelling as a differential oracle",
